@@ -13,6 +13,16 @@ CHECKS = {
          "DESIGN.md section 4 (C16)",
          "trusted: ref/hash.go (own signed FNV-1a, MurmurHash3-x86-32, bitwise CRC), Go's hash/crc32, the published test vectors in ref/vectors.go",
          "runtime differential oracle against independent reference implementations (plain + asan builds)"),
+ "C09": ("fault_enumeration",
+         "Round trip through both record writers compared byte-for-byte with an independent encoder, then a corruption campaign: for every file image up to 4 KB every byte position x {bit flip, 0x00, 0xff} and truncation at every length (exhaustive per image), sampled positions for larger images, multi-byte damage, zeroed blocks and size-field damage; an independent decoder labels each record intact/damaged and the oracle checks positional reads and the sequential scan. Fault enumeration per generated image, images sampled.",
+         "DESIGN.md section 4 (C09)",
+         "trusted: ref/record.go (documented record layout), hash/crc32; CRC collisions (2^-32) ignored",
+         "fault injection (byte/bit corruption, truncation) with a reference-decoder oracle over positional and streaming reads (plain + asan builds)"),
+ "C14": ("exploration",
+         "Generated hint item multisets written through both hint writers, read back by the store's reader and by an independent parser, every present and a set of absent keys looked up through both index forms, k-way merges compared with a reference merge and the expected collision table.",
+         "DESIGN.md section 4 (C14)",
+         "trusted: ref/hint.go (hint layout and reference merge)",
+         "in-package runtime differential oracle over generated hint files (reference parser + reference merge)"),
 }
 
 NOT_YET = {
